@@ -232,7 +232,8 @@ package stun
 //@   props C04 C07
 //@   pure
 //@   allocates
-//@   ensures result == nil <==> bytes_eq(got, expected)
+//@   ensures result == nil ==> bytes_eq(got, expected)
+//@   ensures bytes_eq(got, expected) ==> result == nil
 
 //@ func checkFingerprint
 //@   safety C05 C07
@@ -432,14 +433,22 @@ package stun
 //@ func MessageIntegrity.Check
 //@   safety C07 C04
 //@   props C07
-//@   requires msg != nil && DecodedViews(msg) && DecodedContent(msg)
+//@   requires msg != nil && DecodedViews(msg) && DecodedContent(msg) && region(i) != region(msg.Raw)
 //@   assigns msg.Length, mem(msg.Raw)
 //@   allocates
 //@   ensures msg.Length == old(msg.Length) && sameslice(msg.Raw, old(msg.Raw))
 //@   ensures forall(i, 0, len(msg.Raw), msg.Raw[i] == old(msg.Raw[i]))
 //@   props C04
+//@   assert err == nil ==> old(First(msg.Attributes, 8) < len(msg.Attributes)) && sameslice(val, old(AttrVal(msg, 8)))
+//@   assert sizeReduced == 20 + length - old(start(msg.Raw, First(msg.Attributes, 8) + 1))
+//@   assert startOfHMAC == old(start(msg.Raw, First(msg.Attributes, 8) + 1)) - 24
+//@   assert len(val) == 20 ==> startOfHMAC == old(MIStart(msg))
+//@   assert len(expected) == 20 && forall(j, 0, 20, expected[j] == macbyte(old(hmacsha1(i, setbe16(msg.Raw[:startOfHMAC], 2, startOfHMAC + 4))), j))
+//@   assert forall(j, 0, len(val), val[j] == old(val[j]))
+//@   assert result == nil ==> len(val) == 20 && forall(j, 0, 20, val[j] == expected[j])
 //@   ensures !old(Has(msg, 8)) ==> result != nil
-//@   ensures old(Has(msg, 8)) ==> (result == nil <==> old(MIValid(msg, i)))
+//@   ensures old(Has(msg, 8)) && result == nil ==> old(MIValid(msg, i))
+//@   ensures old(Has(msg, 8)) && old(MIValid(msg, i)) ==> result == nil
 //@   props C07
 //@   loop 0
 //@     invariant -1 <= rangeindex && rangeindex < len(msg.Attributes)
